@@ -963,6 +963,10 @@ pub fn c20_texts(big: bool) -> Vec<String> {
     for s in ["g(\\,)", "[a, \\,]", "g(\\|)", "g(a, \\,, b)", "[\\,, a]", "name(\"John Smith\")", "[\"John Smith\", b]", "f(\"a, b\", c)", "[f(\"x y\")]", "g([\"p, q\"], z)", "f(g(h(a), b))", "f(g(h(a), b), c)", "[[a, [b]], c]", "f([g(a), b], [c])", "Ωmega", "f(Ω)", "f(Ω, x)", "g(x, Ωmega)", "[été, b]", "inf", "NaN", "2E3"] {
         v.push(s.to_string());
     }
+    // numbers with more digits than one machine width holds exactly
+    for t in ["3.141592653589793238", "0.1234567890123456789", "2.7182818284590452353602874", "9007199254740993", "9007199254740992.5", "4294967296", "2147483648", "123456789012345678", "0.30000000000000004", "1.7976931348623157", "18446744073709551616", "9223372036854775807", "9223372036854775808"] {
+        v.push(t.to_string());
+    }
     // scale: the same term at nesting depth / item count / token length n, in every context
     for n in [4usize, 5, 8, 9, 16, 17, 32, 33, 40, 41, 64, 65] {
         let items = |f: &dyn Fn(usize) -> String| (1..=n).map(f).collect::<Vec<_>>().join(", ");
